@@ -55,6 +55,9 @@ func (r *Report) Except(rule, key, pos, what, how string) {
 func (r *Report) Bad(rule, key, pos, what, how string) {
 	r.Add(Obligation{rule, key, pos, what, Violation, how})
 }
+func (r *Report) Info(rule, key, pos, what, how string) {
+	r.Add(Obligation{rule, key, pos, what, Info, how})
+}
 func (r *Report) Note(format string, a ...any) { r.Notes = append(r.Notes, fmt.Sprintf(format, a...)) }
 
 // Unresolved records that a structural role / anchor the rule depends on could not be found: the check fails.
